@@ -161,6 +161,20 @@ func checkBlockC01(c *fw.Ctx, s *chain.Sim, o *supplyOracle, parent consensus.St
 		}
 		o.claimsPaid.Add(o.claimsPaid, want)
 	}
+	// a siafund output is entitled to tax collected SINCE IT WAS CREATED: its claim start must be the
+	// pool at the moment of creation (contracts formed earlier in the same block included)
+	createdSF := map[types.SiafundOutputID]types.Currency{}
+	for _, d := range au.SiafundElementDiffs() {
+		if d.Created {
+			createdSF[d.SiafundElement.ID] = d.SiafundElement.ClaimStart
+		}
+	}
+	checkStart := func(id types.SiafundOutputID) {
+		if cs, ok := createdSF[id]; ok && bigOf(cs).Cmp(pool) != 0 {
+			res.Violate(fw.Violation{Key: "c01-claim-start", What: "a newly created siafund output does not start its claim at the tax pool as of its creation", Replay: rp,
+				Expected: pool.String(), Observed: cs.ExactString()})
+		}
+	}
 	for i, t := range b.Transactions {
 		for _, in := range t.SiafundInputs {
 			for _, e := range p.Supp.Transactions[i].SiafundInputs {
@@ -168,14 +182,29 @@ func checkBlockC01(c *fw.Ctx, s *chain.Sim, o *supplyOracle, parent consensus.St
 					checkClaim(in.ParentID.ClaimOutputID(), e.SiafundOutput.Value, e.ClaimStart)
 				}
 			}
+			// an output created earlier in this block and spent again
+			if cs, ok := createdSF[in.ParentID]; ok {
+				for _, d := range au.SiafundElementDiffs() {
+					if d.SiafundElement.ID == in.ParentID && d.Created && d.Spent {
+						checkClaim(in.ParentID.ClaimOutputID(), d.SiafundElement.SiafundOutput.Value, cs)
+					}
+				}
+			}
+		}
+		for j := range t.SiafundOutputs {
+			checkStart(t.SiafundOutputID(j))
 		}
 		for _, fc := range t.FileContracts {
 			pool.Add(pool, v1Tax(s.Net, child, fc.Payout))
 		}
 	}
 	for _, t := range b.V2Transactions() {
+		txid := t.ID()
 		for _, in := range t.SiafundInputs {
 			checkClaim(in.Parent.ID.V2ClaimOutputID(), in.Parent.SiafundOutput.Value, in.Parent.ClaimStart)
+		}
+		for j := range t.SiafundOutputs {
+			checkStart(t.SiafundOutputID(txid, j))
 		}
 		for _, fc := range t.FileContracts {
 			pool.Add(pool, v2TaxOf(fc))
@@ -203,6 +232,18 @@ func checkBlockC01(c *fw.Ctx, s *chain.Sim, o *supplyOracle, parent consensus.St
 	if got.Cmp(o.expected) != 0 {
 		res.Violate(fw.Violation{Key: "c01-supply", What: fmt.Sprintf("ledger value differs from genesis + subsidies after block %d", child), Replay: rp,
 			Expected: o.expected.String(), Observed: got.String()})
+	}
+	// solvency: what has been paid plus what is still claimable never exceeds the tax collected
+	claimable := new(big.Int)
+	for _, e := range s.St.SF {
+		d := new(big.Int).Sub(bigOf(s.Tip.SiafundTaxRevenue), bigOf(e.ClaimStart))
+		claimable.Add(claimable, d.Mul(d, new(big.Int).SetUint64(e.SiafundOutput.Value)))
+	}
+	lhs := new(big.Int).Mul(o.claimsPaid, big.NewInt(10000))
+	lhs.Add(lhs, claimable)
+	if lhs.Cmp(new(big.Int).Mul(bigOf(s.Tip.SiafundTaxRevenue), big.NewInt(10000))) > 0 {
+		res.Violate(fw.Violation{Key: "c01-pool-insolvent", What: "siafund claims paid plus claims still claimable exceed the tax collected", Replay: rp,
+			Expected: "<= " + new(big.Int).Mul(bigOf(s.Tip.SiafundTaxRevenue), big.NewInt(10000)).String(), Observed: lhs.String()})
 	}
 	if sf != 10000 {
 		res.Violate(fw.Violation{Key: "c01-siafund-count", What: "total siafunds in unspent outputs changed", Replay: rp, Expected: "10000", Observed: fmt.Sprint(sf)})
